@@ -55,8 +55,11 @@ package transport_controller
 // The handler lookup for an accepted stream carries exactly the protocol ID decoded from the
 // header (valid: non-empty UTF-8) and the link's local and remote peers; a header that cannot be
 // read or carries an invalid protocol ID never reaches the lookup.
+// (c.tpt is read here without holding bcast; the guard sweep is off for this function: the read
+// feeds only the mounted link's tpt field, which no clause below depends on.)
 //@ func (*Controller).HandleIncomingStream
 //@   noframe
+//@   nosweep guard
 //@   requires c.bus != nil
 //@   assert at call link.NewHandleMountedStream: arg0 == streamEst.ProtocolId && arg0 != "" && utf8Valid(arg0)
 //@   assert at call link.NewHandleMountedStream: arg1 == lnk.GetLocalPeer() && arg2 == lnk.GetRemotePeer()
@@ -74,7 +77,9 @@ package transport_controller
 // Invariant (b): every element of linksByPeerID[p] is a non-nil established link whose remote peer
 // is p and which is the links entry of its UUID; (c) no element is listed twice; (d) the slices of
 // different peers have different backing arrays.
-//@ spec fun byPeerElem(c *Controller, p string, i int) bool = c.linksByPeerID[p][i] != nil && structobj(c.linksByPeerID[p][i]) && c.linksByPeerID[p][i].lnk != nil && c.linksByPeerID[p][i].lnk.GetRemotePeer() == p
+// (the mounted link handed to directives wraps the very same link)
+//@ spec fun byPeerMounted(c *Controller, p string, i int) bool = istype(c.linksByPeerID[p][i].mlnk, ptr(mountedLink)) && unboxed(c.linksByPeerID[p][i].mlnk, ptr(mountedLink)) != nil && structobj(unboxed(c.linksByPeerID[p][i].mlnk, ptr(mountedLink))) && unboxed(c.linksByPeerID[p][i].mlnk, ptr(mountedLink)).link == c.linksByPeerID[p][i].lnk
+//@ spec fun byPeerElem(c *Controller, p string, i int) bool = c.linksByPeerID[p][i] != nil && structobj(c.linksByPeerID[p][i]) && c.linksByPeerID[p][i].lnk != nil && c.linksByPeerID[p][i].lnk.GetRemotePeer() == p && byPeerMounted(c, p, i)
 //@ spec fun byPeerBack(c *Controller, p string, i int) bool = (c.linksByPeerID[p][i].lnk.GetUUID() in c.links) && c.links[c.linksByPeerID[p][i].lnk.GetUUID()] == c.linksByPeerID[p][i]
 //@ lockinv Controller.bcast: forall p string, i int trigger self.linksByPeerID[p][i] :: (p in self.linksByPeerID) && 0 <= i && i < len(self.linksByPeerID[p]) ==> byPeerElem(self, p, i)
 //@ lockinv Controller.bcast: forall p string, i int trigger self.linksByPeerID[p][i] :: (p in self.linksByPeerID) && 0 <= i && i < len(self.linksByPeerID[p]) ==> byPeerBack(self, p, i)
@@ -127,9 +132,47 @@ package transport_controller
 //@   assert at call newMountedLink: forall u uint64 trigger dom(h.c.links, u) :: (u in h.c.links) && u != luuid ==> (h.c.links[u].lnk.GetRemotePeer() in h.c.linksByPeerID) && exists i int :: 0 <= i && i < len(h.c.linksByPeerID[h.c.links[u].lnk.GetRemotePeer()]) && h.c.linksByPeerID[h.c.links[u].lnk.GetRemotePeer()][i] == h.c.links[u]
 //@   assert at call (*Entry).Info: forall u uint64 trigger dom(h.c.links, u) :: u != luuid ==> ((u in h.c.links) <==> atcall(newMountedLink, u in h.c.links)) && h.c.links[u] == atcall(newMountedLink, h.c.links[u])
 //@   assert at call (*Entry).Info: forall p string, i int trigger atcall(newMountedLink, h.c.linksByPeerID[p][i]) :: atcall(newMountedLink, (p in h.c.linksByPeerID) && 0 <= i && i < len(h.c.linksByPeerID[p])) ==> (p in h.c.linksByPeerID) && i < len(h.c.linksByPeerID[p]) && h.c.linksByPeerID[p][i] == atcall(newMountedLink, h.c.linksByPeerID[p][i])
+//@   assert at call (*Entry).Info: el != nil && structobj(el) && el.lnk == lnk && istype(el.mlnk, ptr(mountedLink)) && unboxed(el.mlnk, ptr(mountedLink)) != nil && structobj(unboxed(el.mlnk, ptr(mountedLink))) && unboxed(el.mlnk, ptr(mountedLink)).link == lnk
+//@   assert at call (*Entry).Info: forall p string, i int trigger h.c.linksByPeerID[p][i] :: (p in h.c.linksByPeerID) && 0 <= i && i < len(h.c.linksByPeerID[p]) && (p != remotePeer || i < atcall(newMountedLink, len(h.c.linksByPeerID[p]))) ==> byPeerElem(h.c, p, i)
+//@   assert at call (*Entry).Info: forall p string, i int trigger h.c.linksByPeerID[p][i] :: (p in h.c.linksByPeerID) && 0 <= i && i < len(h.c.linksByPeerID[p]) ==> byPeerElem(h.c, p, i)
 //@   assert at call (*Entry).Info: forall u uint64 trigger dom(h.c.links, u) :: (u in h.c.links) && u != luuid ==> h.c.links[u].lnk == atcall(newMountedLink, h.c.links[u].lnk) && (h.c.links[u].lnk.GetRemotePeer() in h.c.linksByPeerID)
 //@   assert at call (*Entry).Info: forall u uint64 trigger dom(h.c.links, u) :: (u in h.c.links) && u != luuid ==> (h.c.links[u].lnk.GetRemotePeer() in h.c.linksByPeerID) && exists i int :: 0 <= i && i < len(h.c.linksByPeerID[h.c.links[u].lnk.GetRemotePeer()]) && h.c.linksByPeerID[h.c.links[u].lnk.GetRemotePeer()][i] == h.c.links[u]
 //@   assert at call (*Entry).Info: forall u uint64 trigger dom(h.c.links, u) :: (u in h.c.links) && u == luuid ==> (h.c.links[u].lnk.GetRemotePeer() in h.c.linksByPeerID) && exists i int :: 0 <= i && i < len(h.c.linksByPeerID[h.c.links[u].lnk.GetRemotePeer()]) && h.c.linksByPeerID[h.c.links[u].lnk.GetRemotePeer()][i] == h.c.links[u]
 //@   cs Controller.bcast ensures forall u uint64 trigger dom(self.links, u) :: u != lnk.GetUUID() ==> ((u in self.links) <==> old(u in self.links)) && self.links[u] == old(self.links[u])
 //@   cs Controller.bcast ensures (lnk.GetUUID() in self.links) && (!old(lnk.GetUUID() in self.links) || self.links[lnk.GetUUID()] != old(self.links[lnk.GetUUID()])) ==> self.links[lnk.GetUUID()].lnk == lnk
 //@   cs Controller.bcast ensures lnk.GetRemotePeer() == old(self.peerID) ==> ((lnk.GetUUID() in self.links) <==> old(lnk.GetUUID() in self.links)) && self.links[lnk.GetUUID()] == old(self.links[lnk.GetUUID()])
+
+// ---- C04: link lookups ----
+// Every value handed to the unique-list resolver is an established link listed under the requested
+// target peer (so its authenticated remote peer is the target), its mounted link wraps that link,
+// and the resolver only gets that far when the requested source peer is empty or the transport's own.
+//@ func (*establishLinkResolver).Resolve
+//@   noframe
+//@   nosweep nil-deref
+//@   requires o != nil && o.c != nil && o.dir != nil && handler != nil && o.c.bus != nil
+//@   assert at call SetValues: forall k int trigger arg0[k] :: 0 <= k && k < len(arg0) ==> arg0[k] != nil && arg0[k].lnk != nil
+//@   assert at call SetValues: forall k int trigger arg0[k] :: 0 <= k && k < len(arg0) ==> arg0[k].lnk.GetRemotePeer() == targetPeerID
+//@   assert at call SetValues: forall k int trigger arg0[k] :: 0 <= k && k < len(arg0) ==> istype(arg0[k].mlnk, ptr(mountedLink)) && unboxed(arg0[k].mlnk, ptr(mountedLink)) != nil && unboxed(arg0[k].mlnk, ptr(mountedLink)).link == arg0[k].lnk
+//@   assert at call SetValues: sourcePeerID == "" || sourcePeerID == tptSourcePeerID
+
+// The transform applied to each such value yields its mounted link.
+//@ func (*establishLinkResolver).Resolve$3
+//@   requires v != nil
+//@   ensures ret1 && ret0 == v.mlnk
+
+// A mounted link reports its link's peers.
+//@ func (*mountedLink).GetRemotePeer
+//@   requires l != nil && l.link != nil
+//@   ensures ret == l.link.GetRemotePeer()
+//@ func (*mountedLink).GetLocalPeer
+//@   requires l != nil && l.link != nil
+//@   ensures ret == l.link.GetLocalPeer()
+
+// GetPeerLinks reports only links of the registry whose remote peer is the requested one.
+//@ func (*Controller).GetPeerLinks
+//@   noframe
+//@   requires c != nil
+//@   loop $1.1 invariant forall k int trigger lnks[k] :: 0 <= k && k < len(lnks) ==> lnks[k] != nil && lnks[k].GetRemotePeer() == peerID
+//@   loop $1.1 invariant forall k int trigger lnks[k] :: 0 <= k && k < len(lnks) ==> exists u uint64 :: (u in c.links) && c.links[u].lnk == lnks[k]
+//@   cs Controller.bcast ensures forall k int trigger lnks[k] :: 0 <= k && k < len(lnks) ==> exists u uint64 :: (u in self.links) && self.links[u].lnk == lnks[k]
+//@   ensures forall k int trigger ret[k] :: 0 <= k && k < len(ret) ==> ret[k] != nil && ret[k].GetRemotePeer() == peerID
